@@ -88,6 +88,18 @@ def gen_exec_script(rng, build, maxcalls, maxbody, stats=None):
     m = rng.randint(0, 2 * maxbody)
     started2 = False
     for _ in range(m):
+        if driver == "start" and rng.random() < 0.12:
+            # the window between a YIELD answer and the callback that resumes the task: the host holds the yielded
+            # task back for one directive — mostly a wake from outside or another task starting (its body wakes)
+            host.append("P")
+            r0 = rng.random()
+            if r0 < 0.45:
+                host.append(f"K{rng.randrange(4) if rng.random() < 0.5 else 0}")
+                continue
+            if r0 < 0.75 and second and not started2:
+                host.append(f"S{nbodies - 1}")
+                started2 = True
+                continue
         r = rng.random()
         if r < 0.30 and ncalls:
             k = rng.randrange(ncalls)
